@@ -139,6 +139,12 @@ func (r *cref) one(s *cst) sig {
 	case "forcond":
 		// i := 0; for i < 3 { i := i + 1; body }
 		return r.loop(s, []int{1, 2, 3})
+	case "formap":
+		// for [k, x] in {"b": 2, "a": 1, "c": 3}: keys in string order a, b, c -> values 1, 2, 3
+		return r.loop(s, []int{1, 2, 3})
+	case "forpairs":
+		// for [p, x] in [[10, 1], [20, 2]]
+		return r.loop(s, []int{1, 2})
 	case "call":
 		g := r.exec(s.body)
 		switch g.kind {
@@ -244,7 +250,7 @@ func c04Render(list []*cst, ind string, b *strings.Builder, loopVar string) {
 				c04Render(s.fin, ind+"  ", b, loopVar)
 			}
 			fmt.Fprintf(b, "%s}\n", ind)
-		case "forrange", "forlist", "forcond":
+		case "forrange", "forlist", "forcond", "formap", "forpairs":
 			c04FuncCtr++
 			v := fmt.Sprintf("x%d", c04FuncCtr)
 			switch s.kind {
@@ -262,6 +268,10 @@ func c04Render(list []*cst, ind string, b *strings.Builder, loopVar string) {
 				fmt.Fprintf(b, "%sfor %s in [%s] {\n", ind, v, strings.Join(l, ", "))
 			case "forcond":
 				fmt.Fprintf(b, "%s%s := 0\n%sfor %s < 3 {\n%s  %s := %s + 1\n", ind, v, ind, v, ind, v, v)
+			case "formap":
+				fmt.Fprintf(b, "%sm%s := {\"b\": 2, \"a\": 1, \"c\": 3}\n%sfor [k%s, %s] in m%s {\n", ind, v, ind, v, v, v)
+			case "forpairs":
+				fmt.Fprintf(b, "%sfor [k%s, %s] in [[10, 1], [20, 2]] {\n", ind, v, v)
 			}
 			fmt.Fprintf(b, "%s  mark(\"x=\", %s)\n", ind, v)
 			if s.exit != nil {
@@ -424,7 +434,7 @@ func c04Key(prog []*cst, got, want, gotErr, wantErr string) string {
 				if s.exit != nil {
 					walk([]*cst{s.exit}, inTry)
 				}
-			case "forlist", "forcond":
+			case "forlist", "forcond", "formap", "forpairs":
 				walk(s.body, inTry)
 				if s.exit != nil {
 					walk([]*cst{s.exit}, inTry)
@@ -449,7 +459,7 @@ func init() {
 		Rule: "full product over the stated alphabet; non-trivial = the reference semantics defines the behaviour (marker trace, final error); the rest is counted as skipped",
 		Run:  c04TryProduct})
 	register(&Part{Prop: "C04", Name: "loops-and-ifs", Quick: 4, Thor: 8,
-		Desc: "every loop kind (range(a,b[,s]) for a,b in 1..3 and s in {none,1,2,-1}; list; condition) x exit statement (none, break, continue, return, raise) at every iteration x nesting in a second loop; if/elif/else chains with 1-3 guards x all truth assignments x else present/absent",
+		Desc: "every loop kind (range(a,b[,s]) for a,b in 1..3 and s in {none,1,2,-1}; list; map as [key, value] in string order of keys; list of pairs with destructuring; condition) x exit statement (none, break, continue, return, raise) at every iteration x nesting in a second loop; if/elif/else chains with 1-3 guards x all truth assignments x else present/absent",
 		Rule: "full product; non-trivial = defined by the reference",
 		Run:  c04Loops})
 }
@@ -551,7 +561,8 @@ func c04Loops(c *Ctx) {
 			}
 		}
 	}
-	loops = append(loops, &cst{kind: "forlist", list: []int{1, 2, 3}}, &cst{kind: "forlist", list: nil}, &cst{kind: "forlist", list: []int{2}}, &cst{kind: "forcond"})
+	loops = append(loops, &cst{kind: "forlist", list: []int{1, 2, 3}}, &cst{kind: "forlist", list: nil}, &cst{kind: "forlist", list: []int{2}}, &cst{kind: "forcond"},
+		&cst{kind: "formap"}, &cst{kind: "forpairs"})
 	for _, lp := range loops {
 		for _, ex := range exits {
 			for when := 0; when <= 3; when++ {
